@@ -21,7 +21,7 @@ def option_sets(rng, n_lines, shas):
         if b + 1 <= n_lines:
             c = rng.randint(b + 1, n_lines)
             opts.append(["-L", "%d,%d" % (a, b), "-L", "%d,%d" % (c, n_lines)])
-    opts += [["-M"], ["-C"], ["--root"], ["--first-parent"]]
+    opts += [["-M"], ["-C"], ["--root"], ["--first-parent"], ["-C", "-C", "-C"], ["-C", "-C"], ["-M", "-C"], ["-C", "-C", "-C"]]
     if shas:
         opts.append(["--ignore-rev", rng.choice(shas)])
     return opts
@@ -111,7 +111,7 @@ def check_file(ex, repo, path, rng, notes, probe=True):
             got_sha = {}
             for ln in r.out.split("\n"):
                 parts = ln.split(" ")
-                if len(parts) >= 3 and len(parts[0]) == 40 and all(c in "0123456789abcdef" for c in parts[0]) \
+                if len(parts) >= 3 and len(parts[0]) in (40, 64) and all(c in "0123456789abcdef" for c in parts[0]) \
                         and parts[1].isdigit() and parts[2].isdigit():
                     n = int(parts[3]) if len(parts) >= 4 and parts[3].isdigit() else 1
                     for k in range(n):
@@ -145,12 +145,50 @@ def fam_renames(g):
             yield from g.commit_all()
 
 
+def fam_copies(g):
+    """one commit writes AI lines into two files; a person later copies (or moves) a block from one file
+    into the other: with -C / -C -C -C git blame follows those lines back to the first commit under the
+    path they had THERE"""
+    rng = g.rng
+    files = g.worktree_files()
+    while len(files) < 2:
+        yield g.ai_edit(new_file=True)
+        files = g.worktree_files()
+    fa, fb = rng.sample(files, 2)
+    for f in (fa, fb):
+        yield g.ai_edit(path=f, kinds=["insert", "append"], max_block=6)
+    yield from g.commit_all()
+    if rng.random() < 0.5:
+        yield from g.some_edits(n_ai=(0, 1), n_human=(1, 1))
+        yield from g.commit_all()
+    la = split_lines(g.w.read(g.repo, fa) or "")
+    lb = split_lines(g.w.read(g.repo, fb) or "")
+    if len(la) >= 3:
+        k = rng.randint(3, min(8, len(la)))
+        at = rng.randint(0, len(la) - k)
+        block = la[at:at + k]
+        pos = rng.randint(0, len(lb))
+        newb = lb[:pos] + block + lb[pos:]
+        files_new = {fb: "\n".join(newb) + "\n"}
+        how = rng.choice(["copy", "copy", "move"])
+        if how == "move":
+            files_new[fa] = "\n".join(la[:at] + la[at + k:]) + ("\n" if len(la) > k else "")
+        g.ex.probe("copies." + how)
+        yield {"op": "edit", "who": "human", "files": files_new, "dt": g.dt(), "pre_ckpt": True,
+               "desc": {"kind": "copy_block", "pos": "any", "who": "human", "moved": block}}
+        yield from g.commit_all()
+    if rng.random() < 0.4:
+        yield from g.some_edits(n_ai=(1, 1), n_human=(0, 1), path=fb)
+        yield from g.commit_all()
+
+
 hist.FAMILIES.setdefault("renames", fam_renames)
+hist.FAMILIES.setdefault("copies", fam_copies)
 
 
 class C09(C02):
     id = "C09"
-    families = ["commits", "commits", "renames", "renames", "rebase", "cherry_pick", "merge", "squash_merge", "amend",
+    families = ["copies", "copies", "commits", "commits", "renames", "renames", "rebase", "cherry_pick", "merge", "squash_merge", "amend",
                 "partial", "reset_recommit"]
     quick_runs, thorough_runs = 300, 5000
     quick_budget_s, thorough_budget_s = 170, 1800
@@ -170,6 +208,13 @@ class C09(C02):
 
     def draw_hazards(self, rng, tier):
         return {"names": True} if rng.random() < 0.3 else {}
+
+    def header(self, rng, tier, index):
+        h = super().header(rng, tier, index)
+        if rng.random() < 0.12:
+            # a repository that uses SHA-256 object names (64 hex digits in every blame / notes output)
+            h["world"]["object_format"] = "sha256"
+        return h
 
     def before_op(self, ex, i, op, cfg):
         pass
